@@ -215,12 +215,14 @@ Definition M_write_original (scaler : N) (ts : list table) : outcome (list N) :=
 Definition reader : Type := N -> N -> option (list N).
 
 (* a byte slice as a ReaderAt (bytes.Reader): error unless all n bytes exist *)
-Definition read_at (b : list N) : reader := fun off n =>
-  if off + n <=? N.of_nat (length b) then Some (sub b (N.to_nat off) (N.to_nat n)) else None.
+Definition read_at (b : list N) : reader :=
+  let L := N.of_nat (length b) in                      (* Size(), computed once *)
+  fun off n => if off + n <=? L then Some (sub b (N.to_nat off) (N.to_nat n)) else None.
 
 (* a ReaderAt over b that fails on every access touching an offset >= k *)
-Definition read_at_fault (k : N) (b : list N) : reader := fun off n =>
-  if off + n <=? k then read_at b off n else None.
+Definition read_at_fault (k : N) (b : list N) : reader :=
+  let r := read_at b in
+  fun off n => if off + n <=? k then r off n else None.
 
 Definition printable (c : N) : bool := (32 <=? c) && (c <=? 126).
 
